@@ -166,6 +166,10 @@ def deep_inputs():
                 ("minus", "-" * n + "1"), ("call2", "max(1, " * n + "1" + ")" * n), ("unit", "(" * n + "1 m" + ")" * n + " to cm"),
                 ("comprehension", "{x : x in " * n + "{1}" + "}" * n), ("interval", "[0, " * n + "1" + "]" * n),
                 ("mixed", "{(-abs(" * n + "1" + "))}" * n), ("open", "(" * n + "1"), ("open-array", "{" * n)]
+    for n in (12, 25, 40, 70, 150, 400):
+        w = ("totalResistanceOfParallelBranch" * (n // 30 + 1))[:n]
+        out += [("long-function-name", "%s(1)" % w), ("long-variable-name", "%s + 1" % w), ("long-unit-name", "1 %s" % w), ("long-name-assigned", "%s = 2; %s * 3" % (w, w)),
+                ("long-keyword-name", "sin(1, %s: 2)" % w), ("long-string", "\"%s\"" % (w * 10)), ("long-conversion-target", "1 m to %s" % w)]
     for n in (300, 600, 900, 960, 975, 985, 990, 1000, 1500, 4000, 30000):
         out += [("sum", "+".join(["1"] * n)), ("product", "*".join(["2"] * n)), ("power", "^".join(["1"] * n)), ("compare", "<".join(["1"] * n)),
                 ("sum-units", " + ".join(["1 m"] * n)), ("statements", ";".join(["x=1"] * n)), ("elements", "{" + ",".join(["1"] * n) + "}"),
@@ -460,6 +464,55 @@ def run(ctx):
         if bad:
             rep.violation(dict(kind="cli-status"), "C06 fails: `ka %r` %s" % (expr, bad),
                           dict(text=expr, exit=p.returncode, status=o.get("status"), stdout=p.stdout[-200:], stderr=p.stderr[-300:]))
+    # ---- the command line on a terminal: the streams are told apart even when one of them is a tty
+    import pty
+
+    def run_cli_tty(spec):
+        expr, which = spec
+        m, sl = pty.openpty()
+        try:
+            p = subprocess.run(["/venv/bin/python", "-m", "ka.cli", expr], env=dict(os.environ, HOME=home, PYTHONPATH=C.SRC, MPLBACKEND="Agg", TERM="xterm"),
+                               stdin=subprocess.DEVNULL, stdout=(sl if which == "stdout" else subprocess.PIPE), stderr=(sl if which == "stderr" else subprocess.PIPE), timeout=60)
+        except subprocess.TimeoutExpired as x:
+            return x
+        finally:
+            os.close(sl)
+        data = b""
+        try:
+            os.set_blocking(m, False)
+            while True:
+                chunk = os.read(m, 65536)
+                if not chunk:
+                    break
+                data += chunk
+        except OSError:
+            pass
+        finally:
+            os.close(m)
+        return p, data
+    tty_specs = [(e, w) for e in ("1+1", "1/0", "(", "nosuchfn(1)", "1 m + 1 s", "1/3", "{1, 2 m}", "sin(1, zz: 2)", "\"abc") for w in ("stderr", "stdout")]
+    with ThreadPoolExecutor(6) as ex:
+        tty_runs = list(ex.map(run_cli_tty, tty_specs))
+    for (expr, which), r in zip(tty_specs, tty_runs):
+        if isinstance(r, subprocess.TimeoutExpired):
+            rep.violation(dict(kind="cli-status"), "C06 fails: `ka %r` with a terminal on %s does not return" % (expr, which), dict(text=expr, terminal_on=which))
+            continue
+        p, data = r
+        piped = (p.stdout if which == "stderr" else p.stderr) or b""
+        out_b, err_b = (piped, data) if which == "stderr" else (data, piped)
+        st = known.get(expr, {}).get("status")
+        bad = None
+        if st is not None and p.returncode != st:
+            bad = "exits with %r, execute() status is %r" % (p.returncode, st)
+        elif p.returncode == 1 and out_b.strip() != b"":
+            bad = "exits with 1 but writes %r on the output stream" % out_b[:60]
+        elif p.returncode == 1 and err_b.strip() == b"":
+            bad = "exits with 1 and an empty diagnostic"
+        elif p.returncode == 0 and err_b.strip() != b"":
+            bad = "exits with 0 but writes %r on the error stream" % err_b[:60]
+        if bad:
+            rep.violation(dict(kind="cli-status", terminal_on=which), "C06 fails: `ka %r` with a terminal on %s %s" % (expr, which, bad),
+                          dict(text=expr, terminal_on=which, exit=p.returncode, stdout=repr(out_b[-200:]), stderr=repr(err_b[-300:])))
     # ---- correspondence of the error layout with the Coq model on every distinct (len, index)
     disagreements = 0
     if ctx["model_ok"]:
